@@ -98,14 +98,33 @@ def spec_tri(spec):
 
 
 # ------------------------------------------------------------------------------ generation
-def fix_denominators(vals, rng):
+def shape_values(vals, rng, all_scalar):
+    """Denominators stay usable, but PRESENT fields are regularly exactly zero: earned_premium is never zero
+    (so ratios are 0, not undefined); paid/reported loss (denominators of the age-to-age metrics) may be a
+    scalar 0 / 0.0 only in all-scalar triangles (0 denominator -> ZeroDivisionError -> no summary, which the
+    model follows; array / 0 would be NumPy inf, outside the model); incurred_loss and reported_claims (never
+    denominators) may be scalar zero, all-zero sample arrays or arrays containing zeros."""
     out = {}
     for k, v in vals.items():
-        if isinstance(v, np.ndarray):
-            v = v.copy()
-            v[v == 0] = 1
-        elif v == 0:
-            v = 1 if isinstance(v, int) else 1.0
+        arr = isinstance(v, np.ndarray)
+        if k == "earned_premium" or (k in ("paid_loss", "reported_loss") and (arr or not all_scalar)):
+            if arr:
+                v = v.copy()
+                v[v == 0] = 1
+            elif v == 0:
+                v = 1 if isinstance(v, int) else 1.0
+        if v is not None:
+            r = rng.random()
+            if k in ("incurred_loss", "reported_claims"):
+                if arr and r < 0.15:
+                    v = np.zeros_like(v)
+                elif arr and r < 0.3:
+                    v = v.copy()
+                    v[rng.randrange(len(v))] = 0
+                elif not arr and r < 0.25:
+                    v = 0 if isinstance(v, int) else 0.0
+            elif k in ("paid_loss", "reported_loss") and all_scalar and not arr and r < 0.2:
+                v = 0 if isinstance(v, int) else 0.0
         out[k] = v
     return out
 
@@ -129,8 +148,9 @@ def gen_cases(ctx, n):
                               n_periods=rng.randint(1, 3), n_lags=rng.randint(1, 4), same_fields=rng.random() < 0.7,
                               n_samples=rng.choice([2, 3, 5, 8]))
         new = []
+        all_scalar = not any(isinstance(v, np.ndarray) for c in cells for v in c.values.values())
         for c in cells:
-            vals = fix_denominators(c.values, rng)
+            vals = shape_values(c.values, rng, all_scalar)
             if rng.random() < 0.05 and vals:
                 vals[rng.choice(list(vals))] = None
             new.append(c.replace(values=vals))
@@ -161,6 +181,13 @@ def battery():
         for lag in (0, 1):
             cs.append(cell(2020, lag, {"paid_loss": 100 * k * (lag + 1), "reported_loss": 150 * k * (lag + 2), "earned_premium": 1000}, m))
     out.append((Triangle(cs), {"battery": "two-slices-same-period"}, "battery/two-slices"))
+    # present-but-zero inputs (seeded mutant C20-m2): paid_loss 0 / 0.0 at the first lag with a non-zero premium
+    # gives a 0 loss and a 0 loss ratio -- both must be summarised; all-zero and zero-containing sample arrays
+    out.append((Triangle([cell(2020, 0, {"paid_loss": 0, "reported_loss": 0.0, "earned_premium": 1000}),
+                          cell(2020, 1, {"paid_loss": 50, "reported_loss": 80.0, "earned_premium": 1000}),
+                          cell(2021, 0, {"incurred_loss": np.zeros(3), "reported_claims": np.array([0, 3, 0], dtype=np.int64),
+                                         "earned_premium": 500.0})]),
+                {"battery": "present-zero"}, "battery/zeros"))
     # absent and None inputs, scalar/sample mixes
     out.append((Triangle([cell(2020, 0, {"paid_loss": 10}), cell(2020, 1, {"paid_loss": None, "earned_premium": 5}),
                           cell(2021, 0, {"reported_loss": np.array([1.0, 2.0, 4.0]), "earned_premium": np.array([2.0, 4.0, 8.0])})]),
@@ -202,9 +229,12 @@ def expected_metrics(t, c):
     def div(a, b):
         if a is None or b is None:
             return None
-        if not isinstance(b, np.ndarray) and b == 0:
-            return None
-        return np.asarray(a, dtype=float) / np.asarray(b, dtype=float) if (isinstance(a, np.ndarray) or isinstance(b, np.ndarray)) else a / b
+        if isinstance(a, np.ndarray) or isinstance(b, np.ndarray):
+            with np.errstate(all="ignore"):            # NumPy: x / 0 is inf / nan, not an exception
+                return np.asarray(a, dtype=float) / np.asarray(b, dtype=float)
+        if b == 0:
+            return None                                 # ZeroDivisionError -> no summary
+        return a / b
 
     out = {}
     for loss, title in (("paid_loss", "paid"), ("reported_loss", "reported"), ("incurred_loss", "incurred")):
@@ -238,16 +268,22 @@ def oracle(t, records=None):
         have = {k: v for k, v in r.items() if k not in FIXED_KEYS and is_summary(v)}
         for name, e in exp.items():
             if e is None or (isinstance(e, np.ndarray) and e.size == 0):
+                # direction 1: an input is missing / None / the scalar division is undefined -> no summary
                 if name in have:
                     return {"stage": "absent input must give no summary", "index": i, "metric": name,
                             "got": {k: repr(v) for k, v in have[name].items() if k in ("mean",)}}
                 continue
-            if name not in have:
-                return {"stage": "metric summary missing", "index": i, "metric": name}
-            s = have[name]
             arr = np.atleast_1d(np.asarray(e, dtype=float))
             if not np.all(np.isfinite(arr)):
-                continue
+                continue                                # NumPy inf / nan: outside the property's domain
+            # direction 2: every input present (zero included) -> the summary and its tooltip entry exist
+            if name not in have:
+                return {"stage": "present inputs must give a summary (value " + repr(float(np.mean(arr))) + ")",
+                        "index": i, "metric": name, "cell_values": {k: repr(v) for k, v in c.values.items()}}
+            s = have[name]
+            if name in c.values and s.get("tooltip", "") not in r["tooltip"]:
+                return {"stage": "tooltip entry of a present field missing", "index": i, "metric": name,
+                        "tooltip": r["tooltip"]}
             if not close(s["mean"], np.mean(arr)):
                 return {"stage": "metric value (mean) differs from the cell's own values", "index": i, "metric": name,
                         "got": float(s["mean"]), "want": float(np.mean(arr))}
@@ -374,11 +410,12 @@ def run(ctx):
     from translate import t_plot
 
     ctx.rule = (
-        "cases: directed battery (sample array 0..9; two slices with equal periods; absent / None inputs) + harness.gen "
+        "cases: directed battery (sample array 0..9; two slices with equal periods; present-but-zero inputs; absent / None inputs) + harness.gen "
         "triangles with the standard fields paid/reported/incurred loss, earned premium, reported claims (2-5 of them, "
         "not always the same per cell, occasionally None), int / dyadic float scalars and int64 / float64 sample arrays "
-        "(2-8 samples) and mixes, 1-3 slices, regular / ragged / holey layouts, 1-3 periods x 1-4 lags; zero "
-        "denominators avoided. Every case goes through coqc (model records vs build_plot_data) and through the direct "
+        "(2-8 samples) and mixes, 1-3 slices, regular / ragged / holey layouts, 1-3 periods x 1-4 lags; present fields are "
+        "regularly exactly zero (scalar 0 / 0.0, all-zero arrays, arrays containing zeros) with earned_premium non-zero; "
+        "array-by-zero divisions (NumPy inf) avoided. Every case goes through coqc (model records vs build_plot_data) and through the direct "
         "oracle. Non-trivial = at least 2 cells; distinct by canonical form.")
     ctx.assumptions += [
         "translate/t_plot.py reads the Python AST faithfully; Model/Plot.v interprets the generated description",
